@@ -4,7 +4,7 @@
     enum values, MIDI range) are regenerated from note_seq/abc_parser.py on
     every run (Gen/G04.v). *)
 From Coq Require Import ZArith QArith List Bool.
-From NS Require Import Gen.G04 Model.Abc Proofs.AbcKeys Proofs.AbcPitch Proofs.AbcTime Proofs.AbcBook Proofs.AbcRepeat Proofs.AbcGrammar Proofs.AbcRepeatTokens.
+From NS Require Import Gen.G04 Model.Abc Proofs.AbcKeys Proofs.AbcPitch Proofs.AbcTime Proofs.AbcBook Proofs.AbcRepeat Proofs.AbcGrammar Proofs.AbcRepeatTokens Model.AbcUnroll Proofs.AbcUnroll.
 Import ListNotations.
 Local Open Scope Z_scope.
 
@@ -332,3 +332,101 @@ Example abc_repeat_expansion_tokens_nonvacuous :
   end = true.
 Proof. vm_compute. split; reflexivity. Qed.
 Print Assumptions abc_repeat_expansion_tokens_nonvacuous.
+
+(** * Note level: expanded notes vs the notes of the UNROLLED token list
+      (Model/AbcUnroll.v: every bar / repeat symbol becomes a plain bar line; a repeated
+      body, from its first note to the closing symbol, is written out the notated number
+      of times).  The general statement
+
+        no_inline_fields_in_repeats is = true -> broken_between_notes false is = true ->
+        parse_items is = Ok t ->
+        exists ids ns t', expand t = Ok (ids, ns) /\ parse_items (unroll_items is) = Ok t' /\
+                          notes_eqb ns (t_notes t') = true
+
+      is NOT proved for all item lists.  Established: the two hypotheses are necessary
+      (refutations), the replay theorem that drives it, complete enumeration for all lists
+      of <= 5 tokens over a 13-symbol alphabet, and the runner evaluates the statement on
+      every generated tune of every check run. *)
+
+(* |: A [Q:1/4=60] B :| ,  |: A [L:1/4] B :| ,  |: F [K:G] F :|  — a field inside a body
+   played twice: the expansion replays the first pass, the unrolled reading keeps the
+   changed tempo / unit length / key *)
+Theorem abc_expansion_notes_inline_tempo_refuted :
+  let is := [ILine; ITok (TBar 0 1 1); nt 65; ITok (TInline (FQ (QFrac [(1, 4)] 60))); nt 66; ITok (TBar 1 1 0)] in
+  no_inline_fields_in_repeats is = false /\ broken_between_notes false is = true /\ readings_differ is = true.
+Proof. exact expansion_notes_inline_tempo_refuted. Qed.
+Print Assumptions abc_expansion_notes_inline_tempo_refuted.
+
+Theorem abc_expansion_notes_inline_unit_length_refuted :
+  let is := [ILine; ITok (TBar 0 1 1); nt 65; ITok (TInline (FL 1 4)); nt 66; ITok (TBar 1 1 0)] in
+  no_inline_fields_in_repeats is = false /\ readings_differ is = true.
+Proof. exact expansion_notes_inline_unit_length_refuted. Qed.
+Print Assumptions abc_expansion_notes_inline_unit_length_refuted.
+
+Theorem abc_expansion_notes_inline_key_refuted :
+  let is := [ILine; ITok (TBar 0 1 1); nt 70; ITok (TInline (FK [71] [] false [])); nt 70; ITok (TBar 1 1 0)] in
+  no_inline_fields_in_repeats is = false /\ readings_differ is = true.
+Proof. exact expansion_notes_inline_key_refuted. Qed.
+Print Assumptions abc_expansion_notes_inline_key_refuted.
+
+(* A > |: B :|  — the second hypothesis is needed too *)
+Theorem abc_expansion_notes_broken_across_boundary_refuted :
+  let is := [ILine; nt 65; ITok (TBroken true 1); ITok (TBar 0 1 1); nt 66; ITok (TBar 1 1 0)] in
+  broken_between_notes false is = false /\ readings_differ is = true.
+Proof. exact expansion_notes_broken_across_boundary_refuted. Qed.
+Print Assumptions abc_expansion_notes_broken_across_boundary_refuted.
+
+(* fields right after the opening symbol (written once) and in bodies played once are fine *)
+Theorem abc_expansion_notes_fields_outside_bodies_ok :
+  expansion_check [ILine; ITok (TBar 0 1 1); ITok (TInline (FQ (QFrac [(1, 4)] 60))); nt 65; nt 66;
+                   ITok (TBar 1 1 0); nt 67; ITok (TInline (FL 1 4)); nt 65; ITok (TBar 0 2 0); nt 66] = 1.
+Proof. exact expansion_notes_fields_outside_bodies_ok. Qed.
+Print Assumptions abc_expansion_notes_fields_outside_bodies_ok.
+
+(** The replay theorem: a field-free body (notes, no-ops, broken rhythm between notes,
+    plain bar lines, line starts) run from two parser states with the same key and bar
+    accidentals, unit length and tempo, no pending broken rhythm, and clocks differing by
+    d succeeds or fails identically, ends in the same musical state, and appends the same
+    notes (pitch for pitch) shifted by d — why writing a body out again equals replaying
+    its notes later. *)
+Theorem abc_body_replay : forall B d a b,
+  kacc b = kacc a -> bacc b = bacc a -> unit_len b = unit_len a -> cur_qpm b = cur_qpm a ->
+  in_header a = false -> in_header b = false -> broken a = None -> broken b = None ->
+  (cur b == cur a + d)%Q ->
+  forallb body_item B = true -> broken_between_notes false B = true ->
+  match run_items a B, run_items b B with
+  | Ok a', Ok b' =>
+      kacc b' = kacc a' /\ bacc b' = bacc a' /\ unit_len b' = unit_len a' /\ cur_qpm b' = cur_qpm a' /\
+      broken b' = broken a' /\ (cur b' == cur a' + d)%Q /\
+      Forall2 (shifted d) (firstn (count_notes B) (notes a')) (firstn (count_notes B) (notes b'))
+  | Err e, Err e' => e = e'
+  | _, _ => False
+  end.
+Proof. exact body_replay. Qed.
+Print Assumptions abc_body_replay.
+
+(** Complete enumeration in the kernel: every item list of at most 5 tokens over sigma13. *)
+Theorem abc_expansion_notes_bounded : forall l,
+  (length l <= 5)%nat -> Forall (fun x => In x sigma13) l ->
+  let is := ILine :: l in
+  no_inline_fields_in_repeats is = true -> broken_between_notes false is = true ->
+  forall t, parse_items is = Ok t ->
+  exists ids ns t', expand t = Ok (ids, ns) /\ parse_items (unroll_items is) = Ok t' /\
+                    notes_eqb ns (t_notes t') = true.
+Proof. exact expansion_notes_bounded. Qed.
+Print Assumptions abc_expansion_notes_bounded.
+
+Example abc_expansion_notes_bounded_nonvacuous :
+  (20000 <=? Z.of_nat (length (filter (fun l => expansion_check (ILine :: l) =? 1) (lists_upto 5)))) = true.
+Proof. exact expansion_enumeration_nonvacuous. Qed.
+Print Assumptions abc_expansion_notes_bounded_nonvacuous.
+
+(* what the runner's per-tune value means *)
+Theorem abc_expansion_check_meaning : forall is,
+  expansion_check is <> 2 ->
+  no_inline_fields_in_repeats is = true -> broken_between_notes false is = true ->
+  forall t, parse_items is = Ok t ->
+  exists ids ns t', expand t = Ok (ids, ns) /\ parse_items (unroll_items is) = Ok t' /\
+                    notes_eqb ns (t_notes t') = true.
+Proof. exact expansion_check_meaning. Qed.
+Print Assumptions abc_expansion_check_meaning.
